@@ -200,8 +200,13 @@ class CronWorld(object):
         def steal(conn, cursor, statement, parameters, context,
                   executemany):
             st = statement.lstrip().upper()
-            if not st.startswith('DELETE FROM CRON_TRIGGERS_V2') or \
-                    w._in_steal:
+            is_del = st.startswith('DELETE FROM CRON_TRIGGERS_V2')
+            # the conditional advance: UPDATE ... WHERE id = ? AND
+            # next_execution_time = ? (the same statement issued first by
+            # the other process moves the row on, this one matches nothing)
+            is_upd = st.startswith('UPDATE CRON_TRIGGERS_V2') and \
+                'NEXT_EXECUTION_TIME = ?' in st.split('WHERE')[-1]
+            if not (is_del or is_upd) or w._in_steal:
                 return
             u = w.coop.current()
             if u is None or any(x[0] == u.uid for x in w.stolen):
@@ -211,7 +216,10 @@ class CronWorld(object):
                 cursor.execute(statement, parameters)
             finally:
                 w._in_steal = False
-            tid = parameters[0] if parameters else None
+            tid = None
+            for p_ in (parameters or ()):
+                if isinstance(p_, str) and p_ in w.triggers:
+                    tid = p_
             w.stolen.append((u.uid, tid, len(w.rec.events)))
             w.rec.emit('FAULT', fault='row-deleted-by-another-process',
                        trigger=tid)
@@ -470,13 +478,14 @@ def judge(sc, r, res, desc):
             if f['unit'] == u_ and f.get('tid') == t_ and f['seq'] > seq_:
                 used.add(i)
                 viol('fired-after-losing-the-delete',
-                     'the row of trigger %s had already been deleted by '
-                     'another process when processor %s executed its '
-                     'DELETE (0 rows), yet it started the workflow: the '
-                     'last execution fires twice' % (t_, f['proc']))
+                     'the row of trigger %s had already been deleted / '
+                     'advanced by another process when processor %s '
+                     'executed its own DELETE / conditional UPDATE (0 '
+                     'rows), yet it started the workflow: that occurrence '
+                     'fires twice' % (t_, f['proc']))
     for adv in advances:
-        if (adv['unit'], adv['tid']) in stolen and adv['kind'] == 'delete':
-            continue      # that deletion is the other process's
+        if (adv['unit'], adv['tid']) in stolen:
+            continue      # that change of the row is the other process's
         mine = [i for i, f in enumerate(fires)
                 if f.get('tid') == adv['tid'] and f['unit'] == adv['unit']
                 and i not in used and f['seq'] > adv['seq']]
@@ -562,8 +571,7 @@ def run_case(case):
     base = one(kind='fifo')
     if base.get('inconclusive'):
         return res
-    if any(t.get('count') == 1 or not t.get('pattern')
-           for t in sc['triggers']):
+    if sc['triggers']:
         sc_steal = dict(sc, steal=True)
         for st_name in ('fifo', 'random'):
             r = execute(sc_steal, None, world_mod.Strategy(
